@@ -32,9 +32,54 @@ LONG_LIVED = ('obey', 'poll', 'cancel', 'ignore')
 
 
 def gen_plan(ch: Chooser, tier: str) -> dict[str, Any]:
-    return spawning.gen_spawning_plan(ch)
-
-
+    plan = spawning.gen_spawning_plan(ch)
+    op = plan['operators'][0]
+    names = sorted({o['body']['metadata']['name'] for o in plan['objects']} |
+                   {a['body']['metadata']['name'] for a in plan['actions'] if a['do'] == 'create'})
+    triggers: list[dict[str, Any]] = plan.setdefault('triggers', [])
+    # Targeted timings, placed relative to what the system does (the rest of the plan stays random):
+    # (a) a reason to stop arrives exactly while a daemon that has just returned on its own is patching its result
+    exiting = [h for h in op['handlers'] if h['kind'] == 'daemon' and h['daemon']['mode'] == 'exit']
+    if exiting and ch.bool(0.5):
+        h = ch.choice(exiting)
+        h['daemon'].setdefault('result', {'seen': 1})
+        name = ch.choice(names)
+        if plan.get('peering') and ch.bool(0.5):
+            act: dict[str, Any] = {'do': 'peer-set', 'identity': 'rival2', 'priority': 100, 'lifetime': ch.choice([3, 60]),
+                                   'delay': ch.choice([0.0, 0.001, 0.005])}
+        else:
+            act = {'do': 'patch', 'name': name, 'patch': {'metadata': {'labels': {'run': 'no'}}},
+                   'delay': ch.choice([0.0, 0.001, 0.005])}
+            if ch.bool(0.6):
+                triggers.append({'on': {'what': 'h-', 'hid': h['id'], 'name': name},
+                                 'actions': [{'do': 'patch', 'name': name, 'patch': {'metadata': {'labels': {'run': 'yes'}}},
+                                              'delay': ch.choice([0.5, 3.0])}]})
+        triggers.append({'on': {'what': 'h-', 'hid': h['id'], 'name': name}, 'actions': [act]})
+    # (b) foreign writes racing with the operator's own requests (conflicts on its JSON-patches: carried-over functions)
+    for _ in range(ch.int(0, 2)):
+        name = ch.choice(names)
+        triggers.append({'on': {'what': 'write', 'name': name, 'actor_prefix': 'op1', 'nth': ch.int(1, 6)},
+                         'actions': [{'do': 'patch', 'name': name, 'patch': {'status': {'seen-by': ch.int(0, 9)}},
+                                      'actor': 'controller', 'delay': ch.choice([0.0, 0.0005, 0.002])}]})
+    # (c) a labelled daemon that needs cancellation next to an unlabelled one that has finished on its own, on a kind with
+    #     a status subresource: when the label goes, the finalizer goes too (nothing needs it), in several requests
+    if ch.bool(0.25):
+        plan['kinds'][0]['status_subresource'] = True
+        op['handlers'] = [h for h in op['handlers'] if h['kind'] != 'daemon'][:1] + [
+            {'id': 'dmx', 'kind': 'daemon', 'daemon': {'mode': ch.choice(['ignore', 'cancel']), 'hold': ch.choice([0.5, 2.0])},
+             'opts': {'labels': dict(spawning.RUN_LABEL), 'cancellation_backoff': ch.choice([0.5, 1.0]),
+                      'cancellation_timeout': ch.choice([0.5, 3.0])}},
+            {'id': 'dmy', 'kind': 'daemon', 'daemon': {'mode': 'exit', 'after': ch.choice([0.1, 1.0]), 'delay': 1.0,
+                                                       'result': {'seen': 1}}, 'opts': {}}]
+        if ch.bool(0.5):
+            op['settings']['instant_exit_timeout'] = ch.choice([0.3, 0.6])
+            op['handlers'].append({'id': 'dmz', 'kind': 'daemon', 'daemon': {'mode': 'cancel'},
+                                   'opts': {'cancellation_backoff': 1.0, 'cancellation_timeout': 0.5}})
+        for name in names[:2]:
+            t = round(ch.float(4.0, plan['horizon']), 6)
+            plan['actions'].append({'t': t, 'do': 'patch', 'name': name, 'patch': {'metadata': {'labels': {'run': 'no'}}}})
+        plan['actions'].sort(key=lambda a: a['t'])
+    return plan
 def oracle(run: runner.Run, oc: Outcome) -> None:
     opid = 'op1'
     op = run.op(opid)
@@ -118,12 +163,17 @@ def oracle(run: runner.Run, oc: Outcome) -> None:
                 t_seen_cancel = extra.get('first_cancel_at') if mode == 'ignore' else (c.t1 if c.outcome == 'cancelled' else None)
                 gone = min([x for x in (op.t_killed, op.exit[0] if op.exit else None) if x is not None], default=t_end)
                 alive_to = min(c.t1 if c.t1 is not None else t_end, gone, t_end)
-                if alive_to > t_due + ESCALATION_SLACK and (t_seen_cancel is None or t_seen_cancel > t_due + ESCALATION_SLACK):
+                # (every daemon of the object is given the configured 'instant exit' wait, twice, before the re-check is
+                # even scheduled: the stages of one daemon shift by that much)
+                iet = float(common.spec_of(run, opid)['settings'].get('instant_exit_timeout') or 0.0)
+                n_d = sum(1 for h_ in hspecs.values() if h_['kind'] in ('daemon', 'timer'))
+                esc_slack = ESCALATION_SLACK + 2 * n_d * iet
+                if alive_to > t_due + esc_slack and (t_seen_cancel is None or t_seen_cancel > t_due + esc_slack):
                     # did the reason to stop vanish meanwhile (the object matched again, the pause ended)?
                     why_flag = str(extra.get('reason_at_flag'))
                     vanished = False
                     for s_ in steps.get((opid, uid), []):
-                        if flag_at < s_.t0 <= t_due + ESCALATION_SLACK and s_.etype != 'DELETED':
+                        if flag_at < s_.t0 <= t_due + esc_slack and s_.etype != 'DELETED':
                             v_ = snaps.get((uid, s_.rv))
                             if v_ is not None and (v_.get('metadata') or {}).get('deletionTimestamp') is None \
                                     and spawning.matches(h, v_) and 'FILTERS_MISMATCH' in why_flag:
